@@ -318,29 +318,38 @@ def names_in_macro_bodies(ir) -> set:
 
 
 def scope_label_sites(ir):
-    """list of (path, scope statements list, label name, scope name or None) for labels defined outside macro bodies / if-branches"""
+    """[(scope_steps, label name, scope name or None)] for labels defined outside macro bodies.
+    scope_steps: navigation ((index, key), ...) from the root list to the statement list of the scope
+    that owns the label (labels inside .if branches / includes belong to the enclosing scope)."""
     sites = []
 
-    def go(stmts, path, scope_name, body_ref):
+    def go(stmts, steps, scope_steps, scope_name):
         for i, st in enumerate(stmts):
             k = st["k"]
             if k == "label":
-                sites.append((path, body_ref, st["n"], scope_name))
-            elif k == "block":
-                go(st["b"], path + (i,), None, st["b"])
+                sites.append((scope_steps, st["n"], scope_name))
+            elif k in ("block", "for"):
+                ns = steps + ((i, "b"),)
+                go(st["b"], ns, ns, None)
             elif k == "scope":
-                go(st["b"], path + (i,), st["n"], st["b"])
-            elif k == "for":
-                go(st["b"], path + (i,), None, st["b"])
+                ns = steps + ((i, "b"),)
+                go(st["b"], ns, ns, st["n"])
             elif k == "include":
-                go(st["b"], path, scope_name, body_ref)
+                go(st["b"], steps + ((i, "b"),), scope_steps, scope_name)
             elif k == "if":
-                go(st["t"], path, scope_name, body_ref)
+                go(st["t"], steps + ((i, "t"),), scope_steps, scope_name)
                 if st.get("e") is not None:
-                    go(st["e"], path, scope_name, body_ref)
+                    go(st["e"], steps + ((i, "e"),), scope_steps, scope_name)
 
-    go(ir, (), None, ir)
+    go(ir, (), (), None)
     return sites
+
+
+def navigate(ir, steps):
+    stmts = ir
+    for idx, key in steps:
+        stmts = stmts[idx][key]
+    return stmts
 
 
 def _defines(stmts, name) -> bool:
@@ -403,22 +412,14 @@ def rename_in_scope(ir, path, old, new, scope_name):
                 if st["k"] != "macro":
                     ren_qualified(c, q_old, q_new)
 
-    # locate
-    stmts = ir
-    parent = None
-    for idx in path:
-        parent = stmts
-        stmts = stmts[idx]["b"]
-    ren_scope(stmts)
-    if scope_name is not None and parent is not None:
-        ren_qualified(parent, f"{scope_name}.{old}", f"{scope_name}.{new}")
+    ren_scope(navigate(ir, path))
+    if scope_name is not None:
+        # scope names are unique: the qualified name can only mean this label
+        ren_qualified(ir, f"{scope_name}.{old}", f"{scope_name}.{new}")
     return ir
 
 
 def add_unrelated(ir, path, name):
     ir = copy.deepcopy(ir)
-    stmts = ir
-    for idx in path:
-        stmts = stmts[idx]["b"]
-    stmts.append({"k": "label", "n": name})
+    navigate(ir, path).append({"k": "label", "n": name})
     return ir
